@@ -20,6 +20,7 @@ package main
 import (
 	"fmt"
 	"go/ast"
+	"go/constant"
 	"go/printer"
 	"go/token"
 	"go/types"
@@ -123,6 +124,7 @@ type inliner struct {
 	skipLower map[*ast.BinaryExpr]bool
 	keepSwitch *ast.SwitchStmt
 	keepRange  *ast.RangeStmt
+	closure    map[*ast.FuncDecl]bool // helpers with top-level defer/recover: inlined as an immediately invoked closure
 	tabs       map[types.Object]*tableInfo
 	exps     []*expansion // helpers inlined into the statement being processed
 	stats    *InlineStats
@@ -136,7 +138,7 @@ func isTestFile(pk *packages.Package, f *ast.File) bool {
 
 func newInliner(pk *packages.Package, stats *InlineStats, seq *int) *inliner {
 	in := &inliner{pk: pk, info: pk.TypesInfo, cands: map[*types.Func]*ast.FuncDecl{},
-		fileImps: map[*ast.File]map[string]string{}, skip: map[*ast.CallExpr]bool{}, skipLower: map[*ast.BinaryExpr]bool{}, stats: stats, seq: seq}
+		fileImps: map[*ast.File]map[string]string{}, skip: map[*ast.CallExpr]bool{}, skipLower: map[*ast.BinaryExpr]bool{}, closure: map[*ast.FuncDecl]bool{}, stats: stats, seq: seq}
 	for _, f := range pk.Syntax {
 		if isTestFile(pk, f) {
 			continue
@@ -160,14 +162,40 @@ func (in *inliner) inlinable(fd *ast.FuncDecl, obj *types.Func) bool {
 	if fd.Name.Name == "init" || fd.Name.Name == "main" || fd.Name.Name == "_" {
 		return false
 	}
-	if fd.Type.TypeParams != nil && len(fd.Type.TypeParams.List) > 0 {
+	sig := obj.Type().(*types.Signature)
+	if sig.Variadic() || sig.RecvTypeParams() != nil {
 		return false
 	}
-	sig := obj.Type().(*types.Signature)
-	if sig.Variadic() || sig.TypeParams() != nil || sig.RecvTypeParams() != nil {
-		return false
+	generic := sig.TypeParams() != nil && sig.TypeParams().Len() > 0
+	if generic {
+		// a generic helper whose body and results never name a type parameter (only its parameter types do)
+		// is inlined with its parameters bound by `:=`, so that no type argument has to be written out
+		usesTP := false
+		chk := func(n ast.Node) {
+			if n == nil {
+				return
+			}
+			ast.Inspect(n, func(m ast.Node) bool {
+				if id, isId := m.(*ast.Ident); isId {
+					if tn, isTN := in.info.Uses[id].(*types.TypeName); isTN {
+						if _, isTP := tn.Type().(*types.TypeParam); isTP {
+							usesTP = true
+						}
+					}
+				}
+				return !usesTP
+			})
+		}
+		chk(fd.Body)
+		if fd.Type.Results != nil {
+			chk(fd.Type.Results)
+		}
+		if usesTP {
+			return false
+		}
 	}
 	ok := true
+	needsClosure := false
 	depth := 0
 	var visit func(n ast.Node) bool
 	visit = func(n ast.Node) bool {
@@ -182,12 +210,12 @@ func (in *inliner) inlinable(fd *ast.FuncDecl, obj *types.Func) bool {
 			return false
 		case *ast.DeferStmt:
 			if depth == 0 {
-				ok = false
+				needsClosure = true // its defers must run when the helper's body ends, not when the caller returns
 			}
 		case *ast.CallExpr:
 			if id, isId := x.Fun.(*ast.Ident); isId {
 				if b, isB := in.info.Uses[id].(*types.Builtin); isB && b.Name() == "recover" && depth == 0 {
-					ok = false
+					needsClosure = true
 				}
 			}
 			if in.calleeOf(x) == obj {
@@ -197,6 +225,12 @@ func (in *inliner) inlinable(fd *ast.FuncDecl, obj *types.Func) bool {
 		return ok
 	}
 	ast.Inspect(fd.Body, visit)
+	if ok && needsClosure {
+		if generic {
+			return false
+		}
+		in.closure[fd] = true
+	}
 	return ok
 }
 
@@ -233,8 +267,19 @@ func (in *inliner) run() int {
 			continue
 		}
 		in.curFile = f
+		isCand := map[*ast.FuncDecl]bool{}
+		for _, fd := range in.cands {
+			isCand[fd] = true
+		}
 		ast.Inspect(f, func(n ast.Node) bool {
 			switch x := n.(type) {
+			case *ast.FuncDecl:
+				// the body of a helper that is itself inlined elsewhere is left as it is in this round: its
+				// copies must be made from nodes the type checker has seen (their objects drive the renaming);
+				// calls it makes to other helpers are inlined in the next round, inside the copies
+				if isCand[x] {
+					return false
+				}
 			case *ast.BlockStmt:
 				x.List = in.processList(x.List)
 			case *ast.CaseClause:
@@ -244,8 +289,45 @@ func (in *inliner) run() int {
 			}
 			return true
 		})
+		dropUnusedGeneratedLabels(f)
 	}
 	return in.done
+}
+
+// dropUnusedGeneratedLabels removes the label of a generated labelled switch that no `break` refers to any
+// more (every return site was threaded into the caller's test): go/types records no object for an unused
+// label and go/ssa refuses to build a labelled statement without one.
+func dropUnusedGeneratedLabels(f *ast.File) {
+	used := map[string]bool{}
+	ast.Inspect(f, func(n ast.Node) bool {
+		if b, ok := n.(*ast.BranchStmt); ok && b.Label != nil {
+			used[b.Label.Name] = true
+		}
+		return true
+	})
+	fix := func(list []ast.Stmt) {
+		for i, s := range list {
+			for {
+				ls, ok := s.(*ast.LabeledStmt)
+				if !ok || used[ls.Label.Name] || !strings.Contains(ls.Label.Name, "__i") {
+					break
+				}
+				s = ls.Stmt
+				list[i] = s
+			}
+		}
+	}
+	ast.Inspect(f, func(n ast.Node) bool {
+		switch x := n.(type) {
+		case *ast.BlockStmt:
+			fix(x.List)
+		case *ast.CaseClause:
+			fix(x.Body)
+		case *ast.CommClause:
+			fix(x.Body)
+		}
+		return true
+	})
 }
 
 func (in *inliner) processList(list []ast.Stmt) []ast.Stmt {
@@ -794,17 +876,65 @@ func (in *inliner) expand(s ast.Stmt, site *callSite) ([]ast.Stmt, ast.Stmt, boo
 		}
 		binds = append(binds, varDecl(localName(id), c.expr(f.Type), recvExpr))
 	}
+	// a parameter whose declared type names a type parameter (generic helper) is bound by `:=`
+	mentionsTypeParam := func(t ast.Expr) bool {
+		found := false
+		ast.Inspect(t, func(m ast.Node) bool {
+			if id, isId := m.(*ast.Ident); isId {
+				if tn, isTN := info.Uses[id].(*types.TypeName); isTN {
+					if _, isTP := tn.Type().(*types.TypeParam); isTP {
+						found = true
+					}
+				}
+			}
+			return !found
+		})
+		return found
+	}
+	// a boolean parameter that receives a constant and is never written in the helper (a mode switch such as
+	// `plus bool`) is substituted by that constant, so that the branches it selects are folded away and each
+	// call site keeps only its own path
+	constBool := map[types.Object]string{}
+	bindParam := func(name string, typ ast.Expr, val ast.Expr) ast.Stmt {
+		if tv, ok := info.Types[val]; ok && tv.Value != nil && tv.Value.Kind() == constant.Bool && name != "_" {
+			for obj, nm := range c.rename {
+				if nm == name && !in.assignedIn(decl, obj) {
+					if constant.BoolVal(tv.Value) {
+						constBool[obj] = "true"
+					} else {
+						constBool[obj] = "false"
+					}
+				}
+			}
+		}
+		if mentionsTypeParam(typ) {
+			return &ast.AssignStmt{Lhs: []ast.Expr{nid(name)}, Tok: token.DEFINE, Rhs: []ast.Expr{val}}
+		}
+		return varDecl(name, c.expr(typ), val)
+	}
 	ai := 0
 	for _, f := range decl.Type.Params.List {
 		if len(f.Names) == 0 {
-			binds = append(binds, varDecl("_", c.expr(f.Type), call.Args[ai]))
+			binds = append(binds, bindParam("_", f.Type, call.Args[ai]))
 			ai++
 			continue
 		}
 		for _, nm := range f.Names {
-			binds = append(binds, varDecl(localName(nm), c.expr(f.Type), call.Args[ai]))
+			binds = append(binds, bindParam(localName(nm), f.Type, call.Args[ai]))
 			ai++
 		}
+	}
+	if in.closure[decl] {
+		// closure form: `func() results { binds; body }()` in place of the call; returns stay returns and the
+		// helper's defers run when its body ends, exactly as in a call
+		cc := &copier{in: in, rename: c.rename, keepPos: c.keepPos, hostCopy: true}
+		ft := &ast.FuncType{Func: call.Pos(), Params: &ast.FieldList{}}
+		if decl.Type.Results != nil {
+			ft.Results = cc.value(reflect.ValueOf(decl.Type.Results)).Interface().(*ast.FieldList)
+		}
+		body := &ast.BlockStmt{Lbrace: call.Pos(), List: append(binds, cc.stmtList(decl.Body.List)...), Rbrace: call.Rparen}
+		*site.slot = &ast.CallExpr{Fun: &ast.FuncLit{Type: ft, Body: body}, Lparen: call.Lparen, Rparen: call.Rparen}
+		return pre, s, true
 	}
 	var temps []ast.Expr
 	if decl.Type.Results != nil {
@@ -850,7 +980,22 @@ func (in *inliner) expand(s ast.Stmt, site *callSite) ([]ast.Stmt, ast.Stmt, boo
 	ast.Inspect(decl.Body, visit)
 	c.label = "L" + suffix
 	c.cf = in.factsOf(decl)
+	if len(constBool) > 0 {
+		c.subst = func(e ast.Expr) ast.Expr {
+			if id, ok := e.(*ast.Ident); ok {
+				if lit, ok := constBool[info.Uses[id]]; ok {
+					return nid(lit)
+				}
+			}
+			return nil
+		}
+	}
 	body := c.stmtList(decl.Body.List)
+	if len(constBool) > 0 {
+		tmp := &ast.BlockStmt{List: body}
+		simplifyConsts(tmp)
+		body = tmp.List
+	}
 	exp := &expansion{label: c.label, sites: c.sites, switchMode: c.switchMode}
 	for _, t := range temps {
 		exp.temps = append(exp.temps, t.(*ast.Ident).Name)
